@@ -394,7 +394,20 @@ static void builder_exec(Ctx &ctx)
 				json_object_set_new(eh, "typ", json_string("JWT"));
 			json_object_set_new(eh, "alg", json_string(ea->name));
 			ctx.logf("GENERATE now=%lld key=%d -> %s msg='%s'", (long long)now, ekey, go.ok ? show(go.token, 50).c_str() : "NULL", go.msg.c_str());
-			ctx.sig(strf("C10|key%d|iat%d|nbf%d|exp%d|prog%zu|ok%d", ekey, iat, nbf_off > 0, exp_off > 0, prog ? prog->size() : (size_t)0, go.ok));
+			{
+				// configuration cell of this generate: key, time claims, which reserved names the builder and
+				// the callback program touch, sizes of the maps
+				std::string pd;
+				if (prog)
+					for (auto &e : *prog)
+						pd += strf("%s%s%lld;", e.I("hdr") ? "h." : "c.", edit_name(e), (long long)e.I("act"));
+				std::string names;
+				for (const char *n : {"iat", "exp", "nbf"})
+					names += json_object_get(mc, n) ? "1" : "0";
+				for (const char *n : {"typ", "alg"})
+					names += json_object_get(mh, n) ? "1" : "0";
+				ctx.sig(strf("C10|key%d|iat%d|nbf%d|exp%d|%s|h%zu|c%zu|prog[%s]|ok%d", ekey, iat, nbf_off > 0, exp_off > 0, names.c_str(), json_object_size(mh), json_object_size(mc), pd.c_str(), go.ok));
+			}
 			if (must_fail) {
 				if (go.ok)
 					ctx.violation("C10", ekey == 3 ? "signed-with-public-key" : "signed-with-short-key", strf("key%d", ekey),
@@ -523,6 +536,7 @@ static void reuse_exec(Ctx &ctx)
 	}
 	ProgCtx pc_long, pc_twin;
 	ctx.nontrivial = plan.steps.size() >= 4;
+	uint64_t hist = 0; // what happened to the long-lived object so far (last 3 events)
 	const AlgInfo *hs256 = alg_by_name("HS256");
 
 	auto make_checker = [&](ProgCtx *pc) -> jwt_checker_t * {
@@ -583,10 +597,12 @@ static void reuse_exec(Ctx &ctx)
 			if (bld)
 				jwt_builder_error_clear(bld);
 			ctx.logf("CLEAR");
+			hist = (hist << 8) | 0x01;
 		} else if (s.op == "ADVANCE") {
 			g_clock.advance(s.I("dt"));
 			ctx.logf("ADVANCE -> %lld", (long long)g_clock.now());
 		} else if (s.op == "CONFIG") {
+			hist = (hist << 8) | (uint64_t)(0x02 + s.I("what"));
 			// the same configuration call reaches the long-lived object and (later) every twin
 			Armed a;
 			switch (s.I("what")) {
@@ -701,7 +717,8 @@ static void reuse_exec(Ctx &ctx)
 				jwt_checker_free(twin);
 			}
 			ctx.logf("CALL kind=%d -> reused %d ('%s') twin %d ('%s')%s", kind, vo.ret, vo.msg.c_str(), vt.ret, vt.msg.c_str(), vo.faults_fired ? " [alloc fault]" : "");
-			ctx.sig(strf("C13|c%d|k%d|cb%d|%d|%d|f%d", mode, kind, cfg.cbmode, vo.ret != 0, vt.ret != 0, vo.faults_fired > 0));
+			ctx.sig(strf("C13|c%d|k%d|cb%d|%d|%d|f%d|h%llx", mode, kind, cfg.cbmode, vo.ret != 0, vt.ret != 0, vo.faults_fired > 0, (unsigned long long)(hist & 0xffffff)));
+			hist = (hist << 8) | (uint64_t)(0x10 + kind * 2 + (vo.ret != 0));
 			if (vo.faults_fired) {
 				// under an allocation fault: same verdict or a reported failure, never a wrong accept
 				if (vo.ret == 0 && vt.ret != 0)
@@ -730,7 +747,8 @@ static void reuse_exec(Ctx &ctx)
 				jwt_builder_free(twin);
 			}
 			ctx.logf("CALL generate -> reused %s ('%s') twin %s ('%s')%s", go.ok ? "token" : "NULL", go.msg.c_str(), gt.ok ? "token" : "NULL", gt.msg.c_str(), go.faults_fired ? " [alloc fault]" : "");
-			ctx.sig(strf("C13|b|cb%d|%d|%d|f%d", cfg.cbmode, go.ok, gt.ok, go.faults_fired > 0));
+			ctx.sig(strf("C13|b|cb%d|%d|%d|f%d|h%llx", cfg.cbmode, go.ok, gt.ok, go.faults_fired > 0, (unsigned long long)(hist & 0xffffff)));
+			hist = (hist << 8) | (uint64_t)(0x80 + cfg.cbmode * 2 + go.ok);
 			if (go.faults_fired) {
 				// content of a token produced under an allocation fault is C17's business (it can tell the
 				// jansson dependency defects apart); here only the state carried over to later calls matters
